@@ -13,6 +13,25 @@ for _p in PENDING:
 
 # conjuncts of each property that no discharged obligation covers (reported in evidence)
 NOT_DECIDED = {
+    'C01': ['stack depth of the recursive functions (insert_back_prioritized, evaluators, Display, Drop): recursion terminates, its depth is not bounded',
+            'the formatting machinery itself (Formatter::write_fmt, Display/Debug of std types, derived Debug) and nested Display calls are assumed to return normally',
+            'user functions are assumed not to panic (stated in the property); float operations and libm cannot panic by IEEE semantics (not proved)',
+            'iter_variable_names, derive-generated code (Clone, PartialEq, Debug) and the serde feature are outside the verified text'],
+    'C02': ['the single whole-input statement "in-order yield of the tree == token sequence" (its loop invariant costs 6-14 min and exhausts the resource limit); every step of the builder is pinned instead (ins_step / seq_step / ins_post)',
+            'uniqueness of the tree for a token sequence as one theorem (follows from the pinned steps, not mechanised)'],
+    'C04': ['independence of clones (derive(Clone): ownership, decided by rustc)', 'the hash-map iteration behind iter_variables / iter_variable_names (std); only the per-binding mapping is proved'],
+    'C05': ['closed-form "flat tuple of all elements" for a whole input as one theorem; the separator steps and the collapse functions are pinned individually'],
+    'C06': ['std::str::parse for floats and decimal integers (uninterpreted parse_spec); radix-16 parsing only by the bounded Kani stand-in (ASCII strings of length <= 2)',
+            'Display of partial tokens used for the scientific-notation join (fmt_sci assumed to concatenate the three texts)'],
+    'C07': ['the quantified corollary "separators can be exchanged" over whole inputs; the per-stage equalities split / comment_skip / lex2 that imply it are proved',
+            'char::is_whitespace is an uninterpreted predicate (the Unicode table is std)'],
+    'C08': ['the ordered log of user-function calls (functions are modelled as pure: call_spec); order and first-error-wins are proved for values, errors and the variable map'],
+    'C09': ['that cloning a HashMapContext preserves the switch (derive(Clone))', 'the name -> closure table of builtin_function is checked by Kani dispatch cases (one per macro-generated float builtin in the quick tier), not by Verus'],
+    'C10': ['values of libm functions and of str::trim / to_uppercase / to_lowercase (uninterpreted std functions; routing and argument order proved)',
+            'Display of values behind str::from (fmt_display assumed)'],
+    'C11': ['nothing beyond the assumptions of C08 (user functions pure)'],
+    'C12': ['string-level forms are proved relative to the named relations tokenize_post / tree_post of the two front-end stages', 'equality of results is up to type-error identity (norm) for the type-error class'],
+    'C13': ['"never evaluates successfully in any context" is proved per operator (arity contract of Operator::eval) and per insertion (ins_ok); the quantified statement over whole inputs is not one theorem'],
     'C14': ['the composition `SOURCE.filter_map(closure)` itself (std adapter; Node::iter() / iter_operators_mut() return `impl Iterator`, so the traversal contract does not travel through them): the traversal (NodeIter, erased OperatorIterMut) and each closure body are proved separately',
             'OperatorIterMut is proved on its mutability-erased copy (X20); that erasing `mut` from the borrows of the tree preserves which nodes are visited, and the soundness of the mutable borrows, rest on rustc',
             'the renaming corollary and "evaluation reports only listed names" (whole-program consequences) are not stated as obligations'],
